@@ -482,6 +482,20 @@ static rc::Gen<Case> gen_variant(int variant) {
     c.push_back(Op("s", {}, method));
     c.push_back(Op("s", {}, *gen_over(UNRES, gen_len())));  // bucket / service / operation
     c.push_back(Op("s", {}, *gen_path()));
+    // real-world values: a signer that special-cases a name ("email" is the endpoint prefix of the service "ses") is wrong for exactly that name
+    static const std::vector<std::string> SERVICES = {"s3", "email", "ses", "dynamodb", "ec2", "sts", "iam", "sqs", "sns", "lambda", "kms", "logs", "monitoring", "execute-api", "glacier",
+                                                      "elasticloadbalancing", "rds", "route53", "cloudfront", "autoscaling", "secretsmanager", "ssm", "es", "kinesis", "firehose", "states",
+                                                      "events", "ecr", "ecs", "eks", "athena", "glue", "sagemaker", "bedrock", "mediastore", "iot", "iotdata", "a4b", "aws", "amazonaws", "us-east-1"};
+    static const std::vector<std::string> REGIONS = {"us-east-1", "us-east-2", "us-west-1", "us-west-2", "eu-west-1", "eu-central-1", "ap-southeast-1", "ap-northeast-1", "sa-east-1", "cn-north-1",
+                                                     "us-gov-west-1", "ca-central-1", "me-south-1", "af-south-1", "aws-global", "s3", "us-east-1-fips"};
+    if (*range<int>(0, 7) == 0) c[5] = Op("s", {}, *rc::gen::elementOf(SERVICES));
+    if (*range<int>(0, 7) == 0) c[3] = Op("s", {}, *rc::gen::elementOf(REGIONS));
+    // related arguments: the path repeats the bucket / the region / the key id (path-style addressing, copy and paste)
+    if (*range<int>(0, 9) == 0) {
+      const std::string &src = c[(size_t)*rc::gen::elementOf(std::vector<int>{5, 5, 3, 1})].b;
+      int how = *range<int>(0, 3);
+      c[6] = Op("s", {}, how == 0 ? "/" + src + "/" + c[6].b.substr(c[6].b.empty() ? 0 : 1) : how == 1 ? "/" + src : how == 2 ? "/" + src + "/" : "/x/" + src + "/y");
+    }
     if (*range<int>(0, 11) == 0) c.push_back(Op("tf", {*rc::gen::weightedElement<int>({{5, 0}, {2, 1}, {1, 2}})}));  // the clock cannot be read
     if (*range<int>(0, 15) == 0) {  // several long fields at once (every formatted string then passes several sizes together)
       for (size_t i : {(size_t)3, (size_t)5})
